@@ -115,7 +115,9 @@ def gen_config(rng, i):
     if ntv * dp > 18:
         dp = 1.0
     return dict(nv=nv, nq=nq, na=na, lattice=lattice, system=system, keys=keys, method=method, order=order,
-                NT=nt, DT=dt, NTV=ntv, DELTA_P=dp, spectrum="powerlaw" if i % 3 else "generic")
+                NT=nt, DT=dt, NTV=ntv, DELTA_P=dp, spectrum="powerlaw" if i % 3 else "generic",
+                # the static table on the phonon file's volumes, or on its own points (same / other count)
+                table_volumes=["same", "shifted", "more", "fewer"][(i // 3) % 4] if i % 3 != 2 else "shifted")
 
 
 def elast_text_exact(elast):
@@ -649,14 +651,15 @@ def run(ctx):
     consts = H.impl_constants()
     eigs = shear_frames()
     rng = ctx.rng
-    n = 12 if ctx.tier == "quick" else 60
-    nvar = 4 if ctx.tier == "quick" else 20
+    n = 12 if ctx.tier == "quick" else 200
+    nvar = 4 if ctx.tier == "quick" else 60
     cases, meta = [], []
     t_calc = 0.0
     for i in range(n):
         cfg = gen_config(rng, i)
         ds = synth.make_dataset(rng, nv=cfg["nv"], nq=cfg["nq"], na=cfg["na"], lattice=cfg["lattice"],
-                                keys=cfg["keys"], spectrum=cfg["spectrum"])
+                                keys=cfg["keys"], spectrum=cfg["spectrum"], table_volumes=cfg["table_volumes"])
+        ctx.count("static table volumes: " + cfg["table_volumes"])
         d = rd / ("data%02d" % i)
         t0 = time.time()
         try:
@@ -712,7 +715,7 @@ def run(ctx):
         oracle(ctx, o, cfg, desc)
         if i < nvar:
             variant_checks(ctx, rd, i, ds, cfg, o, dp, desc)
-    rerun_probe(ctx, rd, 2 if ctx.tier == "quick" else 8)
+    rerun_probe(ctx, rd, 2 if ctx.tier == "quick" else 16)
     ctx.extra["calculator_seconds"] = round(t_calc, 2)
 
     per = 2
